@@ -58,3 +58,102 @@ fn c15_merge_into() {
     kani::cover!(n == 3, "three pieces");
     kani::cover!(pieces[3].is_some() && pieces[1].is_some(), "overhang with split");
 }
+
+pub struct TwoVals {
+    v: [Value; 2],
+    n: usize,
+    i: usize,
+}
+impl Iterator for TwoVals {
+    type Item = Result<Value, ()>;
+    fn next(&mut self) -> Option<Self::Item> {
+        if self.i < self.n {
+            let x = self.v[self.i];
+            self.i += 1;
+            Some(Ok(x))
+        } else {
+            None
+        }
+    }
+}
+
+// @harness c15_merge_many_windows
+// @props C15
+// @tier thorough
+// @kind stretch
+// @timeout 5400
+// @mem 32
+// @sub src/utils/merge.rs ::: const DATA_SIZE: usize = 50000; ::: const DATA_SIZE: usize = 4;
+// @functions utils::merge::merge_sections_many / ValueIter::next (window accumulation, run extraction, last_val hand-over between windows, insert_into_queue -> merge_into), with the work-window constant DATA_SIZE reduced from 50,000 to 4 bases by source substitution in the scratch copy (nothing else changed)
+// @bounds two input streams: A with two values, B with one value; coordinates <= 8 (two 4-base windows: values inside a window, crossing the boundary, ending on it); A's values 1.0 and 2.0, B's value -1.0 (cancels A's first) or 4.0; the merged stream is drained (<= 7 next() calls) and compared with the per-base sum at every base 0..8
+// @assumes each stream sorted, non-overlapping, non-empty values
+// @cut the real 50,000-base window (the per-base loops are linear in it); more than two streams; error items
+// @witness cover: a value crossing the window boundary; a cancelling base; the first window yields exactly one run and the second has data
+#[kani::proof]
+#[kani::unwind(10)]
+#[kani::stub(alloc::fmt::format, crate::verif_support::fake_format)]
+fn c15_merge_many_windows() {
+    let (a0s, a0e, a1s, a1e, bs, be): (u32, u32, u32, u32, u32, u32) = (kani::any(), kani::any(), kani::any(), kani::any(), kani::any(), kani::any());
+    kani::assume(a0s < a0e && a0e <= a1s && a1s < a1e && a1e <= 8 && bs < be && be <= 8);
+    let bneg: bool = kani::any();
+    let bv: f32 = if bneg { -1.0 } else { 4.0 };
+    let a = TwoVals { v: [Value { start: a0s, end: a0e, value: 1.0 }, Value { start: a1s, end: a1e, value: 2.0 }], n: 2, i: 0 };
+    let b = TwoVals { v: [Value { start: bs, end: be, value: bv }, Value { start: 0, end: 0, value: 0.0 }], n: 1, i: 0 };
+    let mut srcs: Vec<TwoVals> = Vec::with_capacity(2);
+    srcs.push(a);
+    srcs.push(b);
+    let mut it = merge_sections_many(srcs);
+    // drain
+    let mut out: [(u32, u32, f32); 8] = [(0, 0, 0.0); 8];
+    let mut n = 0usize;
+    let mut done = false;
+    let mut k = 0;
+    while k < 8 {
+        if !done {
+            match it.next() {
+                Some(Ok(v)) => { out[n] = (v.start, v.end, v.value); n += 1; }
+                Some(Err(_)) => { assert!(false, "[no_error] error item from error-free inputs"); }
+                None => { done = true; }
+            }
+        }
+        k += 1;
+    }
+    assert!(done, "[terminates] more than 7 output values for 3 input values over 8 bases");
+    // sorted, non-overlapping, non-empty
+    let mut i = 0;
+    while i < 8 {
+        if i < n {
+            assert!(out[i].0 < out[i].1, "[nonempty] empty output value");
+            if i + 1 < n { assert!(out[i].1 <= out[i + 1].0, "[sorted] output values overlap or are out of order"); }
+        }
+        i += 1;
+    }
+    // per-base sum
+    let mut base = 0u32;
+    while base < 9 {
+        let mut exp = 0.0f32;
+        if a0s <= base && base < a0e { exp += 1.0; }
+        if a1s <= base && base < a1e { exp += 2.0; }
+        if bs <= base && base < be { exp += bv; }
+        let mut got = 0.0f32;
+        let mut present = false;
+        let mut j = 0;
+        while j < 8 {
+            if j < n && out[j].0 <= base && base < out[j].1 { got = out[j].2; present = true; }
+            j += 1;
+        }
+        if exp == 0.0 {
+            assert!(!present || got == 0.0, "[absent] output has a non-zero value where the inputs sum to zero / have no data");
+        } else {
+            assert!(present && got == exp, "[per_base_sum] output value differs from the sum of the inputs at a base");
+        }
+        base += 1;
+    }
+    let c1 = (a0s < 4) & (a0e > 4);
+    kani::cover!(c1, "a value crosses the window boundary");
+    let c2 = bneg & (bs <= a0s) & (be >= a0e);
+    kani::cover!(c2, "A's first value cancelled");
+    let c3 = (a0e <= 4) & (a1s >= 4) & (bs >= 4);
+    kani::cover!(c3, "first window has exactly one run and the second has data");
+    core::mem::forget(it);
+}
